@@ -246,3 +246,16 @@ func msgPropsMismatch(op *sim.Op, fromV5 bool, pk *mqttc.Packet) string {
 	}
 	return ""
 }
+
+// maybeRedis makes the run's broker use the redis persistence back end (on simredis) with probability prob.
+func maybeRedis(rng *rand.Rand, p *sim.Plan, prob float64) bool {
+	if !chance(rng, prob) {
+		return false
+	}
+	p.Broker.Persistence = "redis"
+	if p.Params == nil {
+		p.Params = map[string]string{}
+	}
+	p.Params["redis_lat_us"] = fmt.Sprint(pick(rng, []int{0, 0, 30, 300}))
+	return true
+}
